@@ -1645,6 +1645,53 @@ def lexeme_corpus():
     return cs
 
 
+def merge_corpus():
+    """STATE ACROSS LOADS at the conf layer (seeded change C17-10: the field info of a struct type kept between loads and
+    polluted by a merge).  Type shapes in which an embedded struct contributes a struct under the key of a NAMED struct
+    field (disjoint members: conf merges the two sections): the embedded struct after / before the named field, nested in
+    a member struct, pointer-embedded, two levels of embedding, keys differing in case; the SAME type loaded again by later
+    cases in every order of the three formats (each loader also runs twice per case, then by extension, wrappers, twin),
+    and DIFFERENT config types that share the section types, loaded after one another.  Every load is judged on its own
+    against the model and the property: the result of a load is a function of (type, document)."""
+    limits = St(F("MaxConns", P("int")), F("Timeout", P("float64"), O(opt=True)))
+    listen = St(F("Host", P("string")), F("Port", P("int")))
+    extra = St(F("Zone", P("string"), O(opt=True)))
+    sec = lambda k1, k2, k3, k4: (dm((k1, ds("localhost")), (k2, di(8080)), (k3, di(100)), (k4, dfl("2.5"))))
+    d = lambda top, name="svc": dm(("Name", ds(name)), (top, sec("Host", "Port", "MaxConns", "Timeout")))
+    d2 = lambda top, name="svc": dm(("name", ds(name)), (top, sec("HOST", "port", "maxconns", "TimeOut")))
+    nm = F("Name", P("string"))
+    shapes = [
+        ("after", [nm, F("Server", limits), E([F("Server", listen)])], "Server"),
+        ("before", [nm, E([F("Server", listen)]), F("Server", limits)], "Server"),
+        ("ptr-embedded", [nm, F("Server", limits), E([F("Server", listen)], eptr=True)], "Server"),
+        ("two-levels", [nm, F("Server", limits), E([E([F("Server", listen)])])], "Server"),
+        ("case", [nm, F("server", limits), E([F("SERVER", listen)])], "Server"),
+        ("other-type", [F("Title", P("string"), O(opt=True)), nm, F("Server", limits), E([F("Server", listen)])], "Server"),
+        ("three", [nm, F("Server", limits), E([F("Server", listen)]), E([F("server", extra)])], "Server"),
+        ("pointer-field", [nm, F("Server", Ptr(limits)), E([F("Server", listen)])], "Server"),
+    ]
+    orders = [["json", "yaml", "toml"], ["yaml", "toml", "json"], ["toml", "json", "yaml"], ["toml", "yaml", "json"],
+              ["yaml", "json", "toml"], ["json", "toml", "yaml"]]
+    cs = []
+    for rnd in range(2):                  # every shape twice in the process, the second time in another format order
+        for i, (tag, typ, top) in enumerate(shapes):
+            cs.append({"kind": "load", "tag": "merge-%s-%d" % (tag, rnd), "type": typ, "doc": d(top), "doc2": d2(top.upper()),
+                       "env": None, "order": orders[(i + 3 * rnd) % 6]})
+    # nested in a member struct; the section types alone and in plain types (they must keep loading as before)
+    inner = St(F("Server", limits), E([F("Server", listen)]))
+    for rnd in range(2):
+        cs.append({"kind": "load", "tag": "merge-nested-%d" % rnd, "type": [nm, F("Outer", inner)], "env": None, "order": orders[4 - rnd],
+                   "doc": dm(("Name", ds("n")), ("Outer", dm(("Server", sec("Host", "Port", "MaxConns", "Timeout"))))),
+                   "doc2": dm(("NAME", ds("n")), ("outer", dm(("SERVER", sec("host", "PORT", "maxConns", "timeout")))))})
+    cs.append({"kind": "load", "tag": "merge-plain-limits", "type": [nm, F("Server", limits)], "env": None, "order": orders[1],
+               "doc": dm(("Name", ds("p")), ("Server", dm(("MaxConns", di(1)), ("Host", ds("ignored"))))),
+               "doc2": dm(("name", ds("p")), ("server", dm(("maxconns", di(1)), ("Host", ds("ignored")))))})
+    cs.append({"kind": "load", "tag": "merge-plain-listen", "type": [nm, F("Server", listen), F("Limits", limits, O(opt=True))], "env": None, "order": orders[2],
+               "doc": dm(("Name", ds("p")), ("Server", dm(("Host", ds("h")), ("Port", di(1)), ("MaxConns", di(9))))),
+               "doc2": dm(("name", ds("p")), ("SERVER", dm(("host", ds("h")), ("PORT", di(1)), ("MaxConns", di(9)))))})
+    return cs
+
+
 def null_corpus():
     """documents WITH nulls, JSON and YAML only (TOML has no null, so they are outside the three-format quantifier):
     the executor witness of Props.yaml_null_refuted (JSON null is 'absent', YAML null arrives as the string "") and
@@ -1916,7 +1963,7 @@ class C17(Property):
                  "doc2": dm(("VALUE", dm(("first", dm(("User", dm(("user", ds("u")))))))), ("l", dl(dm(("User", dm(("User", ds("w")))))))),
                  "env": None},
             ]
-        cs = spelling_corpus() + number_corpus() + cs + raw_corpus() + bad_corpus() + null_corpus() + lexeme_corpus()
+        cs = merge_corpus() + spelling_corpus() + number_corpus() + cs + raw_corpus() + bad_corpus() + null_corpus() + lexeme_corpus()
         # aliasing witnesses (seeded change C17-4): two entries, two cells
         for kind, key in (("std", "limits"), ("load", "Limits"), ("mfmt", "Limits")):
             cs.append({"kind": kind, "type": [F(key, Mp(Ptr(P("int")))), F("rates", Mp(Mp(Ptr(P("float64")))), None if kind == "std" else O(opt=True))],
@@ -1987,7 +2034,7 @@ class C17(Property):
         tries = 0
         landed = fix_landed()
         n_shape = max(40, n // 5)
-        n_main = n - n_shape - max(24, n // 20) - 48 - max(16, n // 40)
+        n_main = n - n_shape - max(24, n // 20) - 48 - max(16, n // 40) - max(12, n // 40)
         while len(cases) < n_main and tries < 20 * n:
             tries += 1
             r = rng.random()
@@ -2031,6 +2078,13 @@ class C17(Property):
             cases.append(c)
             n_alias += 1
         cases += shape_cases(rng, n_shape, fix_landed(FIX_DUR), fix_landed(FIX_ANON), fix_landed(FIX_MBOOL))
+        # load AGAIN what was loaded before (another format order): the result of a load is a function of (type, document)
+        loads = [c for c in cases if c["kind"] == "load" and not c.get("env")]
+        orders = [["yaml", "toml", "json"], ["toml", "json", "yaml"], ["toml", "yaml", "json"]]
+        for j, c in enumerate(rng.sample(loads, min(len(loads), max(12, n // 40)))):
+            c2 = copy.deepcopy(c)
+            c2["order"] = orders[j % 3]
+            cases.append(c2)
         return cases
 
     # ---- execution
@@ -2097,6 +2151,19 @@ class C17(Property):
             res[i]["white"] = {k: w.get(k) for k in ("infoerr", "info", "lc", "lc2", "lcerr")}
             if w.get("inter"):
                 res[i]["inter"] = w["inter"]
+        # the same (type, document) loaded again later in the process: every result as the first time
+        def outcome(r):
+            strip = lambda m: {k: (v.get("verdict"), v.get("val")) for k, v in (m or {}).items()}
+            return json.dumps([strip(r.get(k)) for k in ("load", "load2", "byext", "must", "depr")], sort_keys=True)
+        firsts = {}
+        for i, (c, r) in enumerate(zip(cases, res)):
+            if c["kind"] != "load":
+                continue
+            key = json.dumps([c["type"], c["doc"], c.get("doc2"), c.get("env"), c.get("texts"), c.get("texts2")], sort_keys=True)
+            if key in firsts:
+                r["again"] = outcome(r) == firsts[key]
+            else:
+                firsts[key] = outcome(r)
         for r in res:
             r.pop("id", None)
         # known findings are suppressed only where the deviation is EXACTLY the registered one: the model
@@ -2147,13 +2214,13 @@ class C17(Property):
                     copt(cstr(obs["propsoff"][k]) if obs.get("propsoff") and k in obs["propsoff"] else None),
                     copt(cstr(obs["propson"][k]) if obs.get("propson") and k in obs["propson"] else None)))
             inter = ["(%s, %s)" % (cob(obs["inter"][f][0]), cob(obs["inter"][f][1])) for f in ("yaml", "toml") if f in (obs.get("inter") or {})]
-            ex = "(Some (mkExtra %s %s %s %s %s %s %s %s %s %s %s %s %s))" % (
+            ex = "(Some (mkExtra %s %s %s %s %s %s %s %s %s %s %s %s %s %s))" % (
                 clist(["(%s, %s)" % (cstr(e), cob(r)) for e, r in sorted(obs["byext"].items())]),
                 clist(["(%s, %s)" % (cstr(e), cob(r)) for e, r in sorted((obs.get("must") or {}).items())]),
                 cob(obs.get("fill")), copt(cob3(obs["envref"]) if obs.get("envref") else None),
                 copt(cob3(obs["envmust"]) if obs.get("envmust") else None),
                 clist(["(%s, %s)" % (cstr(e), cob(r)) for e, r in sorted((obs.get("depr") or {}).items())]),
-                clist(props), clist([cob(r) for r in obs.get("plain") or []]), cbool(obs.get("retained", True)), clist(inter), info, clc(w.get("lc")), clc(w.get("lc2")))
+                clist(props), clist([cob(r) for r in obs.get("plain") or []]), cbool(obs.get("retained", True)), clist(inter), info, clc(w.get("lc")), clc(w.get("lc2")), cbool(obs.get("again", True)))
         return "CaseLoad %s %s %s %s %s %s %s %s %s %s %s %s" % (
             cfields(case["type"]), cdoc(case["doc"]),
             copt(cdoc(d2) if d2 else None),
